@@ -347,7 +347,9 @@ func (x *Exec) applyContract(st *State, name string, c *Contract, f *ssa.Functio
 		if !x.wantsClause(e) {
 			continue
 		}
-		st.assume(x.trBool(penv, e.E))
+		if t, ok := x.tryTr(penv, e.E); ok {
+			st.assume(t)
+		}
 	}
 	return r
 }
@@ -385,6 +387,22 @@ func (x *Exec) inlineDef(env *Env, name string, c *Contract, rt types.Type) Val 
 		return Val{Tup: rs, Ty: rt}
 	}
 	return rs[0]
+}
+
+// tryTr translates a callee postcondition in the caller's context; a clause
+// that mentions the callee's locals cannot be stated there and is skipped
+// (the caller simply does not learn it).
+func (x *Exec) tryTr(env *Env, e Expr) (t Term, ok bool) {
+	defer func() {
+		if r := recover(); r != nil {
+			if u, isU := r.(unsupported); isU && strings.Contains(u.msg, "unknown identifier") {
+				ok = false
+				return
+			}
+			panic(r)
+		}
+	}()
+	return x.trBool(env, e), true
 }
 
 // wantsClause: a callee postcondition tagged with a property is assumed only
